@@ -23,8 +23,7 @@
 //!   loop-bound / loop-iff-repeat / loop-chain   on every RedirectionLoop that appears in any output
 //! Canonical JSON: object keys sorted (serde_json Map is a BTreeMap); trace `count` fields dropped (stale
 //! after batch_remove by construction of the code); trace `children`, `routes` and `unit_ids_seen` sorted
-//! (HashMap iteration order); `first_ten_*` compared only when at most ten rules failed/errored
-//! (beyond that, membership depends on HashMap iteration order): then only the three counters are compared.
+//! (HashMap iteration order); `first_ten_*` are compared in full (the analysis visits rules in id order since 9993ef8).
 use redirectionio::action::{Action, UnitTrace};
 use redirectionio::api::{
     Example, ExplainRequestInput, ExplainRequestOutput, ExplainRequestProjectInput, ImpactInput, ImpactOutput, ImpactProjectInput, Rule,
@@ -320,6 +319,25 @@ fn example_for(rng: &mut Prng, rule: &Value) -> Value {
 fn gen_case(rng: &mut Prng) -> Value {
     let nb = match rng.below(10) { 0 => 0, 1 => 1, 2 | 3 => 2, 4 | 5 => 3, 6 | 7 => 5, 8 => 8, _ => 14 };
     let mut base: Vec<Value> = (0..nb).map(|i| gen_rule(rng, &format!("r{i}"))).collect();
+    if rng.chance(1, 12) {
+        // more than eleven failing (and some errored) rules: the sample kept by test-examples is truncated (O10)
+        let n = 14 + rng.below(6);
+        base = (0..n)
+            .map(|i| {
+                let mut r = gen_versioned(rng, &format!("r{i}"), &format!("f{i}"), (0, 0, 0, i % 4));
+                r["source"]["path"] = json!(format!("/many/{i}"));
+                let mut ex = example_for(rng, &r);
+                ex["must_match"] = json!(true);
+                ex["unit_ids_applied"] = json!(["never-applied"]);
+                if rng.chance(1, 6) {
+                    ex["url"] = json!("http://[::1"); // errored example
+                }
+                r["examples"] = json!([ex]);
+                r
+            })
+            .collect();
+    }
+    let nb = base.len();
     let mut deleted: Vec<Value> = Vec::new();
     let mut updated: Vec<Value> = Vec::new();
     // probes / examples aimed at superseded versions of rules (the OLD version still matches them)
@@ -670,15 +688,11 @@ fn canon(v: &Value) -> Value {
     }
 }
 
-/// test-examples: beyond ten failing / errored rules the membership of `first_ten_*` follows the
-/// HashMap iteration order of `router.routes()`; compare the counters only.
+/// test-examples: compared in full.  Since 9993ef8 the analysis visits the rules in id order, so the sample kept in
+/// `first_ten_failures` / `first_ten_errors` (up to eleven rules: `len() <= 10`) is a function of the input (before, beyond
+/// eleven failing rules, its membership followed the HashMap iteration order: finding O10, signature first-ten-nondeterministic).
 fn canon_test_examples(v: &Value) -> Value {
-    let mut c = canon(v);
-    let over = |k: &str| c.get(k).and_then(|m| m.as_object()).map(|m| m.len() > 10).unwrap_or(false);
-    if over("first_ten_failures") || over("first_ten_errors") {
-        c = json!({"example_count": c["example_count"], "failure_count": c["failure_count"], "error_count": c["error_count"], "first_ten": "not compared (> 10 rules)"});
-    }
-    c
+    canon(v)
 }
 
 // ------------------------------------------------------------------------------------------------
@@ -887,6 +901,38 @@ fn loops_in(v: &Value, out: &mut Vec<Value>) {
 // ------------------------------------------------------------------------------------------------
 // run
 
+/// paths (array indices erased) at which two JSON values differ: used to report which serialised fields of an analysis
+/// are not a function of its input (two evaluations of the same input differ only through HashMap iteration order)
+fn diff_paths(path: &str, a: &Value, b: &Value, out: &mut Vec<String>) {
+    if out.len() > 8 {
+        return;
+    }
+    match (a, b) {
+        (Value::Object(x), Value::Object(y)) => {
+            for k in x.keys().chain(y.keys().filter(|k| !x.contains_key(*k))) {
+                match (x.get(k), y.get(k)) {
+                    (Some(p), Some(q)) => diff_paths(&format!("{path}.{k}"), p, q, out),
+                    _ => out.push(format!("{path}.{k}")),
+                }
+            }
+        }
+        (Value::Array(x), Value::Array(y)) => {
+            if x.len() != y.len() {
+                out.push(format!("{path}[]"));
+            } else {
+                for (p, q) in x.iter().zip(y.iter()) {
+                    diff_paths(&format!("{path}[]"), p, q, out);
+                }
+            }
+        }
+        _ => {
+            if a != b && !out.contains(&path.to_string()) {
+                out.push(path.to_string());
+            }
+        }
+    }
+}
+
 /// `C19_DEBUG=1`: print the first differing path of two values on stderr (development aid).
 fn dbg_diff(what: &str, a: &Value, b: &Value) {
     if std::env::var("C19_DEBUG").is_err() {
@@ -977,14 +1023,14 @@ fn run(case: &Value) -> Obs {
     if canon_test_examples(&te_p) != canon_test_examples(&te_s) {
         fails.push(("test-examples: project != standalone".into(), "project-vs-standalone"));
     }
-    // run_args --strict-first-ten: the sample of failing rules itself must be a function of the input.  It is not when
-    // more than eleven rules fail (`first_ten_failures.len() <= 10` admits an eleventh, then membership follows the
-    // iteration order of `router.routes()`, a HashMap with a per-instance random state): observation O10 in notes/wp/W8.md
-    if std::env::args().any(|a| a == "--strict-first-ten") {
+    // the sample of failing rules is a function of the input: a second evaluation of the same input gives the same value
+    {
         let again = te_std(&applied);
-        if canon(&again) != canon(&te_s) || canon(&te_p) != canon(&te_s) {
+        if canon(&again) != canon(&te_s) {
             fails.push(("test-examples: first_ten_failures / first_ten_errors differ between two evaluations of the same input".into(), "first-ten-nondeterministic"));
         }
+        let failing = te_s["first_ten_failures"].as_object().map(|m| m.len()).unwrap_or(0);
+        tags.push(format!("te-sample:{}", if te_s["failure_count"].as_u64().unwrap_or(0) as usize > failing && failing >= 11 { "truncated" } else if failing >= 11 { "full-11" } else { "small" }));
     }
     // round trip unit-ids -> test-examples: an example carrying exactly the unit ids the unit-ids analysis reports for it
     // is never reported with "unit ids not applied any more" (the two analyses replay the same pipeline; test-examples
@@ -1084,6 +1130,13 @@ fn run(case: &Value) -> Obs {
     };
     let ui_s = ui_std(&applied);
     let ui_r = ui_std(&reversed);
+    {
+        let mut d = Vec::new();
+        diff_paths("unit-ids", &ui_s, &ui_std(&applied), &mut d);
+        for p in d.iter().take(3) {
+            tags.push(format!("raw-order:{}", p.split('.').take(2).collect::<Vec<_>>().join(".")));
+        }
+    }
     let ui_p = {
         let input: UnitIdsProjectInput = serde_json::from_value(json!({"change_set": c.change_set()})).unwrap();
         serde_json::to_value(UnitIdsOutput::create_result_from_project(input, c.base_router())).unwrap()
@@ -1124,6 +1177,16 @@ fn run(case: &Value) -> Obs {
         };
         let e_s = ex_std(&applied);
         let e_r = ex_std(&reversed);
+        {
+            // statistic: which serialised fields change between two evaluations of the SAME input (array order only)
+            let mut d = Vec::new();
+            diff_paths("explain", &e_s, &ex_std(&applied), &mut d);
+            d.sort();
+            d.dedup();
+            for p in d.iter().take(3) {
+                tags.push(format!("raw-order:{}", p.split('.').take(3).collect::<Vec<_>>().join(".")));
+            }
+        }
         let e_p = {
             let input: ExplainRequestProjectInput = serde_json::from_value(json!({"example": probe, "change_set": c.change_set(), "max_hops": c.max_hops, "project_domains": c.domains})).unwrap();
             explain_value(ExplainRequestOutput::create_result_from_project(input, c.base_router()))
@@ -1192,6 +1255,15 @@ fn run(case: &Value) -> Obs {
         };
         let i_s = im_std(&applied);
         let i_r = im_std(&reversed);
+        {
+            let mut d = Vec::new();
+            diff_paths("impact", &i_s, &im_std(&applied), &mut d);
+            d.sort();
+            d.dedup();
+            for p in d.iter().take(3) {
+                tags.push(format!("raw-order:{}", p.split('.').take(4).collect::<Vec<_>>().join(".")));
+            }
+        }
         let i_p = {
             let input: ImpactProjectInput = serde_json::from_value(json!({"max_hops": c.max_hops, "with_redirection_loop": with_loop, "domains": c.domains, "rule": rule, "action": action, "change_set": c.change_set()})).unwrap();
             serde_json::to_value(ImpactOutput::from_impact_project(input, c.base_router())).unwrap()
@@ -1256,6 +1328,14 @@ fn run(case: &Value) -> Obs {
         }
     }
 
+    // run_args --strict-order: array order in the serialised outputs must be a function of the input too (observation O11)
+    if std::env::args().any(|a| a == "--strict-order") {
+        if tags.iter().any(|t| t.starts_with("raw-order:") && t.contains("unit_ids_seen")) {
+            fails.push(("unit_trace.unit_ids_seen is ordered differently by two evaluations of the same input".into(), "unit-ids-seen-order"));
+        } else if tags.iter().any(|t| t.starts_with("raw-order:") && t.contains("match_traces")) {
+            fails.push(("match_traces are ordered differently by two evaluations of the same input".into(), "match-traces-order"));
+        }
+    }
     let nontrivial = !applied.is_empty() && !c.probes.is_empty();
     let mut o = Obs::new(json!({"loops": loops})).trivial(!nontrivial);
     o.tags = tags;
